@@ -76,40 +76,55 @@ def observer(got, pred, sp, call, sg, prog, ctx, part):
     if not any((c['vars'][1] if isinstance(c['vars'], tuple) else c['vars']) for c in sp):
         bump(part, 'constraints_without_variables')
         return
-    prob = optyx.Problem().minimize(optyx.Constant(0.0))
-    try:
-        prob.subject_to(got)
-    except Exception as e:
-        bad('subject_to raises %s' % type(e).__name__)
-        return
-    real = ss.minimize
-    ss.minimize = stub
-    try:
-        prob.solve(method='SLSQP')
-    except Exception as e:
-        bad('solve raises %s' % type(e).__name__)
-        return
-    finally:
-        ss.minimize = real
-    sc = list(captured.get('constraints') or ())
-    V = [v.name for v in prob.variables]
     want_vars = sorted(set(name_of(n) for c in sp for n in (c['vars'][1] if isinstance(c['vars'], tuple) else c['vars'])), key=natkey)
-    if sorted(V) != sorted(want_vars):
-        bump(part, 'variable_list_differs_left_to_C16')
-        return
+    # the same constraint object(s) used in three problems whose variable lists have different lengths / orders:
+    # no extra variable, one sorting before all names, one sorting after
+    for extra in (None, 'AA0', 'zz9'):
+        captured.clear()
+        ev = None if extra is None else optyx.Variable(extra, lb=-1, ub=1)
+        prob = optyx.Problem().minimize(optyx.Constant(0.0) if ev is None else ev * 1.0)
+        try:
+            prob.subject_to(got)
+        except Exception as e:
+            bad('subject_to raises %s' % type(e).__name__)
+            return
+        real = ss.minimize
+        ss.minimize = stub
+        try:
+            prob.solve(method='SLSQP')
+        except Exception as e:
+            bad('solve raises %s' % type(e).__name__)
+            return
+        finally:
+            ss.minimize = real
+        sc = list(captured.get('constraints') or ())
+        V = [v.name for v in prob.variables]
+        if sorted(V) != sorted(want_vars + ([extra] if extra else [])):
+            bump(part, 'variable_list_differs_left_to_C16')
+            return
+        r = seam_check(sc, sp, V, extra, ctx, part, bad)
+        if r:
+            return
+
+
+def seam_check(sc, sp, V, extra, ctx, part, bad):
+    from fractions import Fraction as Fr
     if len(sc) != len(sp):
         bad('solver receives %d constraints, expected %d' % (len(sc), len(sp)))
-        return
+        return True
     for i, (d, want) in enumerate(zip(sc, sp)):
         if d.get('type') != want['type']:
             bad('solver constraint type %r, expected %r' % (d.get('type'), want['type']), {'element': i})
-            return
+            return True
         pts = [pt for pt in ctx.points if interp.regular_for_derivative(want['fun'], pt, ctx.pars)][:3]
         for pt in pts:
-            x = np.array([float(pt[n]) for n in V], dtype=float)
+            ptx = dict(pt)
+            if extra:
+                ptx[extra] = Fr(1, 3)
+            x = np.array([float(ptx[n]) for n in V], dtype=float)
             try:
                 wf, tf = progjudge.oracle(want['fun'], pt, ctx.pars)
-                wj = [progjudge.oracle(next(t for kk, t in want['jac'].items() if name_of(kk) == n), pt, ctx.pars) for n in V]
+                wj = [(0.0, 1e-12) if n == extra else progjudge.oracle(next(t for kk, t in want['jac'].items() if name_of(kk) == n), pt, ctx.pars) for n in V]
             except Irregular:
                 continue
             try:
@@ -117,15 +132,15 @@ def observer(got, pred, sp, call, sg, prog, ctx, part):
                 hj = np.asarray(d['jac'](x), dtype=float).reshape(-1)
             except Exception as e:
                 bad('solver constraint callable raises %s' % type(e).__name__, {'element': i})
-                return
+                return True
             part['evaluations'] += 1
             if not interp.close(hf, wf, max(tf, ctx.looser * (1 + abs(wf)))):
                 bad('function handed to the solver is not >= 0 exactly where the relation holds', {'element': i, 'got': hf, 'expected': wf})
-                return
+                return True
             if len(hj) != len(wj) or any(not interp.close(float(a), w, max(t, ctx.looser * (1 + abs(w)))) for a, (w, t) in zip(hj, wj)):
                 bad('Jacobian handed to the solver is not the derivative of its function', {'element': i, 'got': [float(a) for a in hj], 'expected': [w for w, _ in wj], 'V': V})
-                return
-
+                return True
+    return False
 
 def run(report, tier):
     apirun.run_config(report, 'MC_C10', observer=observer, report_kinds=('C', 'CL'))
